@@ -157,6 +157,13 @@ def u_encode(ctx, index):
   # determinism: the result is a function of the arguments (no havoc'd value reaches it)
   r2 = ip.call(ip.getattr(ip.env(U).lookup('TaggedSeries'), 'encode'), [metric], {'sep': sep, 'hash_only': hash_only})
   ctx.check('C14/encode/function', r2 == r if z3.is_expr(r2) else z3.BoolVal(False))
+  # ... and of nothing else: asked for the other hash_only value afterwards, the answer is the one a
+  # fresh process (an interpreter that has seen no call yet) gives
+  other = z3.Not(hash_only)
+  r3 = ip.call(ip.getattr(ip.env(U).lookup('TaggedSeries'), 'encode'), [metric], {'sep': sep, 'hash_only': other})
+  ipb = make_interp(ctx, index)
+  rb = ipb.call(ipb.getattr(ipb.env(U).lookup('TaggedSeries'), 'encode'), [metric], {'sep': sep, 'hash_only': other})
+  ctx.check('C14/encode/independent_of_earlier_calls', r3 == rb if (z3.is_expr(r3) and z3.is_expr(rb)) else z3.BoolVal(False))
   # tagged names use the hash of the metric and (unless hash_only) the metric with its dots replaced
   # (informative, not an obligation of C14: the property does not fix the naming scheme)
   ctx.check('shape/encode/tagged_uses_hash_of_the_name',
